@@ -69,11 +69,12 @@ def pyReprListWith (reprStr : String → String) : List PyVal → Except Err (Li
       pure (a :: b)
 end
 
-def pyRepr (v : PyVal) : Except Err String := pyReprWith (fun s => "'" ++ s ++ "'") v
-
-def pyStr : PyVal → Except Err String
+/-- `str(v)`: a string is itself, everything else is its `repr` — so a string *nested in a
+    tuple* is printed by `reprStr` (quote choice, escapes; instantiated at
+    `PyStrLit.pyReprStr printable` as `PyVal.pyStr` in `PyExec.lean`) -/
+def pyStrWith (reprStr : String → String) : PyVal → Except Err String
   | .str s => pure s
-  | v => pyRepr v
+  | v => pyReprWith reprStr v
 
 /-- numeric view for the numeric tower: bool ⊂ int, float -/
 inductive Num where
